@@ -203,17 +203,17 @@ class OrderSword(Entity):
 
     def resolving(self, time: float, max_sword_count: int):
         result: list[tuple[float, float]] = []
+        # swords beyond the capacity leave before they tick, not after the call
+        self._set_running_swords(self.running_swords, max_sword_count)
         for index, _ in enumerate(self.running_swords):
             counter, time_left = self.running_swords[index]
-            maximum_elapsed = max(0, int(time_left // self.interval))
 
             time_left -= time
             counter -= time
-            elapse_count = 0
 
-            while counter <= 0 and elapse_count < maximum_elapsed:
+            # a sword ticks while it is alive: the tick at `counter` happens before the sword expires
+            while counter <= 0 and counter < time_left:
                 counter += self.interval
-                elapse_count += 1
                 yield 1
 
             if time_left > 0:
